@@ -862,7 +862,17 @@ func (g *TxGen) proposal(t *rapid.T) *governance.ProposalContent {
 		if rapid.Bool().Draw(t, "propWide") {
 			g.propNote += "+block-visible"
 			yes := true
-			switch rapid.IntRange(0, 3).Draw(t, "propWideKind") {
+			switch rapid.IntRange(0, 4).Draw(t, "propWideKind") {
+			case 4:
+				// another split of the transaction fees between the proposer, the voters and the next proposer (any
+				// combination that is not all zero is a valid parameter set) - fees persisted for the next block under the
+				// old weights are then disbursed under the new ones
+				g.propNote += "+fee-split"
+				wp, wv, wq := q(uint64(rapid.IntRange(0, 2).Draw(t, "newWP"))), q(uint64(rapid.IntRange(0, 2).Draw(t, "newWV"))), q(uint64(rapid.IntRange(0, 2).Draw(t, "newWQ")))
+				if wp.IsZero() && wv.IsZero() && wq.IsZero() {
+					wp = q(1)
+				}
+				ch.FeeSplitWeightPropose, ch.FeeSplitWeightVote, ch.FeeSplitWeightNextPropose = &wp, &wv, &wq
 			case 0:
 				ch.DisableTransfers = &yes
 			case 1:
